@@ -108,3 +108,13 @@ Definition nuts_visited32 (t : table) (logu : Z) (calls : list (nat * Z * Z * li
   concat (map (fun c => (-1000000009) :: visited32 t logu c) calls).
 Definition nuts_visited64 (t : table) (logu : Z) (calls : list (nat * Z * Z * list Z)) : list Z :=
   concat (map (fun c => (-1000000009) :: visited64 t logu c) calls).
+
+(* ---- draw grammar of a NUTS chain: the kinds of variates it takes from its own generator, in order
+   (0 = standard normal in T, 1 = Exp(1) in T, 2 = uniform in T, 3 = uniform f64).
+   run(): init_chain draws d normals (momentum for the step-size heuristic, drawn on every call); every
+   transition draws d normals (momentum), one Exp(1) (slice variable), and per doubling a direction uniform,
+   one f64 uniform per merge of build_tree, and the acceptance uniform ---- *)
+Definition nuts_transition_kinds (d : nat) (merges : list nat) : list Z :=
+  repeat 0 d ++ [1] ++ concat (map (fun m => [2] ++ repeat 3 m ++ [2]) merges).
+Definition nuts_run_kinds (d : nat) (transitions : list (list nat)) : list Z :=
+  repeat 0 d ++ concat (map (nuts_transition_kinds d) transitions).
